@@ -297,3 +297,244 @@ pub proof fn lemma_succ_name_has_both_key<T: Eq + PartialOrd + Send + Sync, A: C
     assert(g.name_of(g.pos(a)) == a && g.name_of(g.pos(x)) == x);
     assert(g.form_key(c.0, c.1) == g.both_key(&a, &x));
 }
+
+// ---- C09: degrees of one node, computed from the per-node edge lists above ----
+// positions of `list` holding a self-loop on `name`
+pub open spec fn loop_positions<T: PartialOrd + Send, A>(list: Seq<Arc<Edge<T, A>>>, name: T) -> Set<int> {
+    Set::range(0, list.len() as int).filter(|i: int| list[i].u == name && list[i].v == name)
+}
+// the edges listed for `name` (get_edges_for_node): stored lists of the predecessors `op`, then of the successors / neighbours `os`
+pub open spec fn node_edge_list<T: Eq + PartialOrd + Send + Sync, A: Clone>(g: Graph<T, A>, name: T, op: Seq<T>, os: Seq<T>) -> Seq<Arc<Edge<T, A>>> {
+    in_edge_lists(g, name, op).flatten() + both_edge_lists(g, name, os).flatten()
+}
+pub open spec fn orders_ok<T: Eq + PartialOrd + Send + Sync, A: Clone>(g: Graph<T, A>, name: T, op: Seq<T>, os: Seq<T>) -> bool {
+    &&& op.no_duplicates() && (forall|x: T| g.pred_names(name).contains(x) <==> #[trigger] op.contains(x))
+    &&& os.no_duplicates() && (forall|x: T| g.succ_names(name).contains(x) <==> #[trigger] os.contains(x))
+}
+// the degree the property asks for: on a directed graph in-degree + out-degree (= the length of the list, where a self-loop already
+// appears twice), on an undirected graph the length of the list plus one more for every self-loop (a self-loop adds two)
+pub open spec fn degree_of_list<T: Eq + PartialOrd + Send + Sync, A: Clone>(g: Graph<T, A>, name: T, list: Seq<Arc<Edge<T, A>>>) -> int {
+    if g.specs.directed { list.len() as int } else { (list.len() + loop_positions(list, name).len()) as int }
+}
+pub open spec fn edge_is_loop_on<T: PartialOrd + Send, A>(e: &Arc<Edge<T, A>>, name: &T) -> bool { e.u == *name && e.v == *name }
+// R-ext (A5): `v.iter().filter(f).count()`: ASSUMED to count the elements for which f answers true (`keep` = their positions)
+pub open spec fn count_picks<X, F: FnMut(&&X) -> bool>(v: Seq<X>, keep: Set<int>, f: F) -> bool {
+    &&& forall|i: int| #[trigger] keep.contains(i) ==> 0 <= i < v.len() && call_ensures(f, (&&v[i],), true)
+    &&& forall|i: int| 0 <= i < v.len() && !keep.contains(i) ==> call_ensures(f, (&&#[trigger] v[i],), false)
+}
+#[verifier::external_body]
+pub fn vcount_filter<X, F: FnMut(&&X) -> bool>(v: &Vec<X>, f: F) -> (r: usize)
+    requires forall|i: int| 0 <= i < v@.len() ==> call_requires(f, (&&#[trigger] v@[i],)),
+    ensures exists|keep: Set<int>| #[trigger] count_picks(v@, keep, f) && r == keep.len(),
+{ v.iter().filter(f).count() }
+// R-ext (A5): float sums of edge weights (Iterator::sum over f64 is outside Verus): uninterpreted folds
+pub uninterp spec fn wsum<T: PartialOrd + Send, A>(list: Seq<Arc<Edge<T, A>>>) -> f64;
+pub uninterp spec fn wsum_at<T: PartialOrd + Send, A>(list: Seq<Arc<Edge<T, A>>>, keep: Set<int>) -> f64;
+#[verifier::external_body]
+pub fn vsum_weights<T: PartialOrd + Send, A>(v: &Vec<&Arc<Edge<T, A>>>) -> (r: f64)
+    ensures r == wsum(Seq::new(v@.len(), |i: int| *v@[i])),
+{ v.iter().map(|e| e.weight).sum() }
+#[verifier::external_body]
+pub fn vsum_weights_filter<T: PartialOrd + Send, A, F: FnMut(&&&Arc<Edge<T, A>>) -> bool>(v: &Vec<&Arc<Edge<T, A>>>, f: F) -> (r: f64)
+    requires forall|i: int| 0 <= i < v@.len() ==> call_requires(f, (&&#[trigger] v@[i],)),
+    ensures exists|keep: Set<int>| #[trigger] count_picks(v@, keep, f) && r == wsum_at(Seq::new(v@.len(), |i: int| *v@[i]), keep),
+{ v.iter().filter(f).map(|e| e.weight).sum() }
+
+impl<T, A> Graph<T, A>
+where
+    T: Eq + Clone + PartialOrd + Ord + Hash + Send + Sync + Display,
+    A: Clone,
+{
+//@ extract fn src/graph/degree.rs get_node_in_degree props=C09,C20 ty=Graph
+//@ rewrite
+-> Option<usize>
+//@ with
+-> (r: Option<usize>)
+//@ spec
+    requires
+        self.wf_nodes(), self.wf_estore(),
+        self.wf_index_sets(), self.wf_name_sets(), self.wf_name_store(),
+    ensures
+        // [C09.degree.in_degree_counts_the_stored_in_edges]
+        !(self.specs.directed && self.knows(node_name)) ==> r.is_none(),
+        self.specs.directed && self.knows(node_name) ==> r.is_some() && exists|op: Seq<T>| #[trigger] op.no_duplicates()
+            && (forall|x: T| self.pred_names(node_name).contains(x) <==> #[trigger] op.contains(x))
+            && r.unwrap() == in_edge_lists(*self, node_name, op).flatten().len(),
+//@ end
+
+//@ extract fn src/graph/degree.rs get_node_out_degree props=C09,C20 ty=Graph
+//@ rewrite
+-> Option<usize>
+//@ with
+-> (r: Option<usize>)
+//@ spec
+    requires
+        self.wf_nodes(), self.wf_estore(),
+        self.wf_index_sets(), self.wf_name_sets(), self.wf_name_store(),
+    ensures
+        // [C09.degree.out_degree_counts_the_stored_out_edges]
+        !(self.specs.directed && self.knows(node_name)) ==> r.is_none(),
+        self.specs.directed && self.knows(node_name) ==> r.is_some() && exists|os: Seq<T>| #[trigger] os.no_duplicates()
+            && (forall|x: T| self.succ_names(node_name).contains(x) <==> #[trigger] os.contains(x))
+            && r.unwrap() == out_edge_lists(*self, node_name, os).flatten().len(),
+//@ end
+
+//@ extract fn src/graph/degree.rs get_node_degree props=C09,C20 ty=Graph
+//@ rewrite
+-> Option<usize>
+//@ with
+-> (r: Option<usize>)
+//@ rewrite
+false => edges
+                        .iter()
+                        .filter(|e|
+//@ with
+false => vcount_filter(&edges, |e: &&&Arc<Edge<T, A>>| -> (b: bool)
+                    requires key_model_ok::<T>(),
+                    ensures b == edge_is_loop_on(**e, &node_name),
+                {
+//@ rewrite
+)
+                        .count(),
+//@ with
+ }),
+//@ before let self_loops_count = match self.specs.directed {
+                let ghost ev = edges@;
+//@ before Some(total_count + self_loops_count)
+                proof {
+                    let (op, os) = choose|op: Seq<T>, os: Seq<T>| #[trigger] node_edges_rel(*self, node_name, op, os, ev);
+                    assert(node_edges_rel(*self, node_name, op, os, ev));
+                    let list = node_edge_list(*self, node_name, op, os);
+                    assert(Seq::new(ev.len(), |i: int| *ev[i]) == list);
+                    assert(orders_ok(*self, node_name, op, os));
+                    if !self.specs.directed {
+                        // the closure passed to vcount_filter is anonymous: its postcondition is restated through call_ensures
+                        let keep = choose|keep: Set<int>| self_loops_count == keep.len()
+                            && (forall|i: int| #[trigger] keep.contains(i) ==> 0 <= i < ev.len() && edge_is_loop_on(ev[i], &node_name))
+                            && (forall|i: int| 0 <= i < ev.len() && !keep.contains(i) ==> !edge_is_loop_on(#[trigger] ev[i], &node_name));
+                        assert(keep =~= loop_positions(list, node_name)) by {
+                            assert forall|i: int| keep.contains(i) <==> loop_positions(list, node_name).contains(i) by {
+                                if 0 <= i < ev.len() { assert(*ev[i] == list[i]); }
+                            }
+                        }
+                        assert(keep.subset_of(Set::range(0, ev.len() as int)));
+                        vstd::set_lib::lemma_len_subset(keep, Set::range(0, ev.len() as int));
+                    }
+                }
+                // allocation bound treated as given: a Vec of pointers holds at most isize::MAX / 8 elements, so twice its length fits a usize
+                assume(2 * edges@.len() <= usize::MAX);
+//@ spec
+    requires
+        self.wf_nodes(), self.wf_estore(),
+        self.wf_index_sets(), self.wf_name_sets(), self.wf_name_store(),
+        name_order_total::<T>(),
+    ensures
+        !self.knows(node_name) ==> r.is_none(),
+        // [C09.degree.degree_is_in_plus_out_when_directed_and_a_self_loop_adds_two]
+        self.knows(node_name) ==> r.is_some() && exists|op: Seq<T>, os: Seq<T>| #[trigger] orders_ok(*self, node_name, op, os)
+            && r.unwrap() == degree_of_list(*self, node_name, node_edge_list(*self, node_name, op, os)),
+//@ end
+
+//@ extract fn src/graph/degree.rs get_node_weighted_degree props=C09,C20 ty=Graph
+//@ rewrite
+-> Option<f64>
+//@ with
+-> (r: Option<f64>)
+//@ rewrite
+edges.iter().map(|e| e.weight).sum();
+//@ with
+vsum_weights(&edges);
+//@ rewrite
+edges
+                            .iter()
+                            .filter(|e|
+//@ with
+vsum_weights_filter(&edges, |e: &&&Arc<Edge<T, A>>| -> (b: bool)
+                    requires key_model_ok::<T>(),
+                    ensures b == edge_is_loop_on(**e, &node_name),
+                {
+//@ rewrite
+)
+                            .map(|e| e.weight)
+                            .sum();
+                        Some(total_weight + self_loops_weight)
+//@ with
+ });
+                        proof {
+                            let list = node_edge_list(*self, node_name, op, os);
+                            let keep = choose|keep: Set<int>| self_loops_weight == wsum_at(list, keep)
+                                && (forall|i: int| #[trigger] keep.contains(i) ==> 0 <= i < ev.len() && edge_is_loop_on(ev[i], &node_name))
+                                && (forall|i: int| 0 <= i < ev.len() && !keep.contains(i) ==> !edge_is_loop_on(#[trigger] ev[i], &node_name));
+                            assert(keep =~= loop_positions(list, node_name)) by {
+                                assert forall|i: int| keep.contains(i) <==> loop_positions(list, node_name).contains(i) by {
+                                    if 0 <= i < ev.len() { assert(*ev[i] == list[i]); }
+                                }
+                            }
+                        }
+                        Some(total_weight + self_loops_weight)
+//@ before let total_weight: f64 =
+                let ghost ev = edges@;
+//@ before match self.specs.directed {
+                let ghost (op, os) = choose|op: Seq<T>, os: Seq<T>| #[trigger] node_edges_rel(*self, node_name, op, os, ev);
+                proof {
+                    assert(node_edges_rel(*self, node_name, op, os, ev));
+                    assert(Seq::new(ev.len(), |i: int| *ev[i]) == node_edge_list(*self, node_name, op, os));
+                    assert(orders_ok(*self, node_name, op, os));
+                }
+//@ spec
+    requires
+        self.wf_nodes(), self.wf_estore(),
+        self.wf_index_sets(), self.wf_name_sets(), self.wf_name_store(),
+        name_order_total::<T>(),
+    ensures
+        !self.knows(node_name) ==> r.is_none(),
+        // [C09.degree.weighted_degree_is_the_weight_sum_and_an_undirected_self_loop_counts_twice]
+        self.knows(node_name) ==> r.is_some() && exists|op: Seq<T>, os: Seq<T>| #[trigger] orders_ok(*self, node_name, op, os) && ({
+            let list = node_edge_list(*self, node_name, op, os);
+            &&& self.specs.directed ==> r.unwrap() == wsum(list)
+            &&& !self.specs.directed ==> r.unwrap() == fadd(wsum(list), wsum_at(list, loop_positions(list, node_name)))
+        }),
+//@ end
+
+//@ extract fn src/graph/degree.rs get_node_weighted_in_degree props=C09,C20 ty=Graph
+//@ rewrite
+-> Option<f64>
+//@ with
+-> (r: Option<f64>)
+//@ rewrite
+edges.iter().map(|e| e.weight).sum()
+//@ with
+vsum_weights(&edges)
+//@ spec
+    requires
+        self.wf_nodes(), self.wf_estore(),
+        self.wf_index_sets(), self.wf_name_sets(), self.wf_name_store(),
+    ensures
+        // [C09.degree.weighted_in_degree_sums_the_stored_in_edges]
+        !(self.specs.directed && self.knows(node_name)) ==> r.is_none(),
+        self.specs.directed && self.knows(node_name) ==> r.is_some() && exists|op: Seq<T>| #[trigger] op.no_duplicates()
+            && (forall|x: T| self.pred_names(node_name).contains(x) <==> #[trigger] op.contains(x))
+            && r.unwrap() == wsum(in_edge_lists(*self, node_name, op).flatten()),
+//@ end
+
+//@ extract fn src/graph/degree.rs get_node_weighted_out_degree props=C09,C20 ty=Graph
+//@ rewrite
+-> Option<f64>
+//@ with
+-> (r: Option<f64>)
+//@ rewrite
+edges.iter().map(|e| e.weight).sum()
+//@ with
+vsum_weights(&edges)
+//@ spec
+    requires
+        self.wf_nodes(), self.wf_estore(),
+        self.wf_index_sets(), self.wf_name_sets(), self.wf_name_store(),
+    ensures
+        // [C09.degree.weighted_out_degree_sums_the_stored_out_edges]
+        !(self.specs.directed && self.knows(node_name)) ==> r.is_none(),
+        self.specs.directed && self.knows(node_name) ==> r.is_some() && exists|os: Seq<T>| #[trigger] os.no_duplicates()
+            && (forall|x: T| self.succ_names(node_name).contains(x) <==> #[trigger] os.contains(x))
+            && r.unwrap() == wsum(out_edge_lists(*self, node_name, os).flatten()),
+//@ end
+}
